@@ -5,7 +5,7 @@ mkdir -p .work
 for seed in "$@"; do
   for id in $(cat checks/REGISTERED); do
     t0=$(date +%s)
-    out=$(VERIF_SEED=$seed ./check $id $tier 2>&1); rc=$?
+    out=$(VERIF_SEED=$seed timeout ${SWEEP_TIMEOUT:-5400} ./check $id $tier 2>&1); rc=$?
     t1=$(date +%s)
     echo "$(date +%H:%M) $id $tier seed=$seed rc=$rc wall=$((t1-t0))s $(echo "$out" | grep -E '^(VIOLATION|INCONCLUSIVE|KNOWN-FINDING)' | head -3 | cut -c1-200 | tr '\n' ' ')" >> .work/sweep.log
   done
